@@ -8,8 +8,9 @@ import RzilVerif.Lemmas.StmtLemmas
     the expression theorem enters as the hypothesis `ExprOK ms WF` (see `Lemmas/StmtConv.lean`) and is
     discharged in `Props/C05Compose.lean`.  All statement forms the model executes are covered:
     declaration, simple/compound assignment to locals and registers, chained assignment, memory store,
-    `if`/`else`, `for` with step `v++` and `v += k`, `JUMP`, the skip statements
-    (`exprstmt`/`ret` are rejected by `WFStmt`/`compileStmt`; `execC` evaluates and discards a bare value).
+    `if`/`else`, `for` with step `v++` and `v += k`, `JUMP`, the skip statements, bare PURE value statements `e;`
+    (`execC` evaluates and discards the value, the lowering emits nothing; `ret` and values with a side effect are
+    rejected by `WFStmt`/`compileStmt`).
     Assignment targets: declared locals, registers, and immediates the lowering has registered (`riV = riV & ~3`).
   * the static side conditions are the computable `Ctx.ok`, `WFStmt` (`Model/StmtWF.lean`); dropping
     `WFStmt` is refuted: `stmt_correct_fixed_unrestricted_false` (`a = b += a`).
@@ -130,7 +131,17 @@ theorem stmt_main : ∀ f : Nat,
               (hWF.mono (fun _ h => List.mem_cons_of_mem _ (List.mem_append_right _ h))) hinv hex2
             exact ⟨σIL', ExecIL_branch hcond (mkSeq_exec.2 hx), hinv'⟩
       | chain l1 l2 op2 e => exact chain_correct hE henv hc hcomp hwf hWF hinv hex
-      | exprstmt e => simp [WFStmt] at hwf
+      | exprstmt e =>
+        -- a bare pure value: C evaluates and discards it (state unchanged), the lowering emits nothing
+        simp only [compileStmt] at hcomp
+        obtain ⟨ce, _, hcomp1⟩ := bind_ok hcomp
+        simp only [Except.ok.injEq, Prod.mk.injEq] at hcomp1
+        obtain ⟨rfl, _⟩ := hcomp1
+        simp only [execC] at hex
+        obtain ⟨v, _, hex1⟩ := bind_ok hex
+        simp only [Except.ok.injEq] at hex1
+        subst hex1
+        exact ⟨_, ExecIL_empty, hinv⟩
       | ret e => simp [WFStmt] at hwf
       | vcall n x a p => simp [WFStmt] at hwf
       | for_ v cnd step body =>
@@ -199,7 +210,16 @@ theorem stmt_main : ∀ f : Nat,
           (hWF.mono (fun _ h => List.mem_append_left _ h)) hinv h1
         obtain ⟨σIL2, hx2, hinv2⟩ := ihS ss st1 es st2 σ1 σIL1 σC' hes hwf.2
           (hWF.mono (fun _ h => List.mem_append_right _ h)) hinv1 h2
-        exact ⟨σIL2, ExecSeqIL_cons hx1 hx2, hinv2⟩
+        cases hb : isBare s
+        · rw [consEff_eff hb]
+          exact ⟨σIL2, ExecSeqIL_cons hx1 hx2, hinv2⟩
+        · -- a bare value statement is not listed: its (empty) effect does not move the IL state
+          rw [consEff_bare hb]
+          have h0 := compileStmt_bare hb he
+          subst h0
+          have := ExecIL_det hx1 ExecIL_empty
+          subst this
+          exact ⟨σIL2, hx2, hinv2⟩
     · intro v cond step body st bs st' cc stepE loopBody σC σIL σC' hcc hbs hshape hwfb hWF hinv hex
       rw [loopC] at hex
       obtain ⟨vc, hvc, hex1⟩ := bind_ok hex
